@@ -33,7 +33,7 @@ PLAN = dict(
                     "(wt_fs ignores parameter types, wt_ax demands declared ones: C12_shrink_preserves_typing_refuted); C12_pipeline_wt_fragment2 "
                     "is the composition with the shrink link discharged on the fragment; the other two links are proved as well: "
                     "C12_fun2core_preserves_typing_fragment2 (prog_tyguard p -> compile_prog p = Ok c -> wt_core c; prog_tyguard = boolean typing "
-                    "of the annotated program in compiled types + no call of main + main : i64 (no capture clause since the repair d5d4151 of fun2core: shadowing is allowed); all term forms; key lemma: "
+                    "of the annotated program in compiled types + main : i64 (no capture clause since the repair d5d4151 of fun2core: shadowing is allowed; no call-of-main exclusion since the repair f929eb7: the entry point main<n>(params) { main(params, mu~x. exit x) } is typed by entry_tg / main_group_typed, the two call-main witnesses are inside the guards: C12_call_main_witnesses_in_guard, C12_call_main_witnesses_typed, C12_fun2core_fragment2_refuted_before_fix); all term forms; key lemma: "
                     "a lifted share_<f>_<n> is typed in its parameter list = core_lang's TypedFreeVars of its body), C12_fun2core_total_fragment2, "
                     "C12_fun2core_pre_check (every fun2core output satisfies pre_check, no guard), C12_uniquify_preserves_typing, "
                     "C12_focus_preserves_typing (wt_core + pre_check + xtor_tys_ok + names_le -> wt_fs + unique_binders + ids_bounded + gub), "
